@@ -160,7 +160,9 @@ package kvcache
 //@   loop 2 invariant forall j int, g int :: 0 <= j && j < dst && (pendingLen == 0 || j < pendingDst || j >= pendingDst + pendingLen) && g == c.ghost_dat[j] && len(c.cells[j].sequences) != 0 ==> 0 <= g && g < len(c.cells) && c.cells[j].pos == old(c.cells[g].pos) && c.cells[j].sequences == old(c.cells[g].sequences)
 //@   loop 2 invariant forall j int :: dst <= j && j <= src ==> (j == src && len(c.cells[j].sequences) == 0) || (c.cells[j].pos == old(c.cells[j].pos) && c.cells[j].sequences == old(c.cells[j].sequences))
 //@   loop 2 invariant forall j int :: pendingDst <= j && j < pendingDst + pendingLen ==> len(c.cells[j].sequences) != 0 && c.cells[j].pos == old(c.cells[j-pendingDst+pendingSrc].pos) && c.cells[j].sequences == old(c.cells[j-pendingDst+pendingSrc].sequences)
+//@   loop 2 invariant forall j int :: src < j && j < len(c.cells) ==> len(c.cells[j].sequences) == 0
 //@   loop 3 invariant dst <= src && src < len(c.cells) && (pendingLen > 0 ==> src <= pendingSrc)
+//@   loop 3 invariant forall j int :: src < j && j < len(c.cells) ==> len(c.cells[j].sequences) == 0
 //@   assert-at call Close #2 : forall j int, g int :: 0 <= j && j < len(c.cells) && g == c.ghost_dat[j] && len(c.cells[j].sequences) != 0 ==> 0 <= g && g < len(c.cells) && c.cells[j].pos == old(c.cells[g].pos) && c.cells[j].sequences == old(c.cells[g].sequences)
 //@   loop 4 invariant forall j int, g int :: 0 <= j && j < len(c.cells) && g == c.ghost_dat[j] && len(c.cells[j].sequences) != 0 ==> 0 <= g && g < len(c.cells) && c.cells[j].pos == old(c.cells[g].pos) && c.cells[j].sequences == old(c.cells[g].sequences)
 //@   loop 5 invariant forall j int, g int :: 0 <= j && j < len(c.cells) && g == c.ghost_dat[j] && len(c.cells[j].sequences) != 0 ==> 0 <= g && g < len(c.cells) && c.cells[j].pos == old(c.cells[g].pos) && c.cells[j].sequences == old(c.cells[g].sequences)
